@@ -100,6 +100,12 @@ impl WorkspaceManager {
         self.open_file_state_version = self.open_file_state_version.wrapping_add(1);
     }
 
+    /// Verification hook: the editor text held for `uri`, if the document is open.
+    #[cfg(emmyluals_emmylua_analyzer_rust_verif)]
+    pub fn verif_open_text(&self, uri: &Uri) -> Option<String> {
+        self.open_file_texts.get(uri).cloned()
+    }
+
     pub fn is_open_file(&self, uri: &Uri) -> bool {
         self.open_file_texts.contains_key(uri)
     }
